@@ -59,6 +59,8 @@ pub trait KeyT: Hash + Eq + Clone + Send + Sync + 'static + for<'a> From<&'a <Se
 
 pub trait ValT: Clone + PartialEq + Send + Sync + 'static + serde::Serialize + serde::de::DeserializeOwned {
     const NAME: &'static str;
+    /// false for zero-sized values, which cannot store a payload
+    const STORES: bool = true;
     const HAS_SERIAL: bool;
     fn make(v: u32) -> Self;
     fn val(&self) -> u32;
@@ -394,6 +396,7 @@ impl ValT for P4 {
 /// Unit value, for sets (`HashSet<T>` is `HashMap<T, ()>`).
 impl ValT for () {
     const NAME: &'static str = "unit";
+    const STORES: bool = false;
     const HAS_SERIAL: bool = false;
     fn make(_: u32) {}
     fn val(&self) -> u32 {
@@ -485,6 +488,78 @@ macro_rules! small_key {
 }
 small_key!(KeyU8, ViewU8, u8, 1u8, 256);
 small_key!(KeyU16, ViewU16, u16, 2u8, 65536);
+
+// ------------------------------------------------------------------ KeyZ: zero-sized key (a collection holds at most one)
+#[derive(Debug)]
+pub struct KeyZ;
+pub struct ViewZ;
+impl Hash for ViewZ {
+    fn hash<H: Hasher>(&self, h: &mut H) {
+        tick(Class::Hash);
+        h.write_u32(0);
+    }
+}
+impl hashbrown::Equivalent<KeyZ> for ViewZ {
+    fn equivalent(&self, _k: &KeyZ) -> bool {
+        sim_eq(0, 0)
+    }
+}
+impl Hash for KeyZ {
+    fn hash<H: Hasher>(&self, h: &mut H) {
+        tick(Class::Hash);
+        h.write_u32(0);
+    }
+}
+impl PartialEq for KeyZ {
+    fn eq(&self, _o: &KeyZ) -> bool {
+        sim_eq(0, 0)
+    }
+}
+impl Eq for KeyZ {}
+impl Clone for KeyZ {
+    fn clone(&self) -> KeyZ {
+        tick(Class::Clone);
+        <KeyZ as KeyT>::make(0)
+    }
+}
+impl Drop for KeyZ {
+    fn drop(&mut self) {
+        sim().ms_drop(3, 0);
+        tick(Class::Drop);
+    }
+}
+impl From<&ViewZ> for KeyZ {
+    fn from(_v: &ViewZ) -> KeyZ {
+        tick(Class::Into);
+        <KeyZ as KeyT>::make(0)
+    }
+}
+impl KeyT for KeyZ {
+    const NAME: &'static str = "KeyZ";
+    const HAS_SERIAL: bool = false;
+    const HAS_DROP: bool = true;
+    const UNIVERSE: u32 = 1;
+    type View = ViewZ;
+    fn view_id(_v: &ViewZ) -> u32 {
+        0
+    }
+    fn make(_id: u32) -> KeyZ {
+        sim().ms_create(3, 0);
+        KeyZ
+    }
+    fn id(&self) -> u32 {
+        0
+    }
+    fn serial(&self) -> u32 {
+        0
+    }
+    fn view(_id: u32) -> ViewZ {
+        ViewZ
+    }
+    fn intact(&self) -> bool {
+        true
+    }
+}
 
 // ------------------------------------------------------------------ Key24 (24 bytes, align 8)
 #[derive(Debug)]
@@ -783,6 +858,7 @@ serde_key!(PodKey);
 serde_key!(KeyU8);
 serde_key!(KeyU16);
 serde_key!(Key24);
+serde_key!(KeyZ);
 serde_val!(Val8);
 serde_val!(P4);
 serde_val!(Big200);
